@@ -57,6 +57,44 @@ def rbf_cases(ck, rng):
             ref, dref = py_sum(kern, X, Xc, alpha)
             if np.abs(f - ref).max() > 1e-12 * (1 + np.abs(ref).max()) or np.abs(df - dref).max() > 1e-11 * (1 + np.abs(dref).max()):
                 ck.violation("rbf-evaluator:%s:differs-from-kernel-sum" % idx_name, {"scale": scale, "err": float(np.abs(f - ref).max())})
+    # ---- memory layout of control points / weights / inputs is not part of the model: Fortran-ordered (what
+    # DFTKernel.set_control_points(reduce=True) stores), strided views and C-ordered copies must evaluate alike
+    from ciderpress.dft.xc_evaluator import SpinRBFEvaluator
+    wide = rng.uniform(0, 1, size=(2 * nctrl, N1 + 3))
+    layouts = {"C": lambda a: np.ascontiguousarray(a), "F": lambda a: np.asfortranarray(a),
+               "col-view": lambda a: _embed(a, wide_cols=True), "row-stride": lambda a: _embed(a, wide_cols=False)}
+
+    def _embed(a, wide_cols):
+        a = np.asarray(a)
+        if a.ndim == 1:
+            buf = np.zeros(2 * a.size)
+            buf[::2] = a
+            return buf[::2]
+        if wide_cols:
+            buf = np.zeros(a.shape[:-1] + (a.shape[-1] + 3,))
+            buf[..., : a.shape[-1]] = a
+            return buf[..., : a.shape[-1]]
+        buf = np.zeros(a.shape[:-2] + (2 * a.shape[-2], a.shape[-1]))
+        buf[..., ::2, :] = a
+        return buf[..., ::2, :]
+    kern = quiet(get_rbf_kernel, slice(0, N1), ls, scale=0.9)
+    Xc2 = rng.uniform(0, 1, size=(2, nctrl, N1))
+    X2 = rng.uniform(0, 1, size=(2, 23, N1))
+    classes = {"RBFEvaluator": (RBFEvaluator, Xc, X), "KernelEvaluator": (KernelEvaluator, Xc, X), "SpinRBFEvaluator": (SpinRBFEvaluator, Xc2, X2)}
+    for cname, (cls, xc0, x0) in classes.items():
+        ref_f, ref_d = cls(kern, np.ascontiguousarray(xc0), alpha.copy())(np.ascontiguousarray(x0).copy())
+        for lname, lay in layouts.items():
+            for what in ("ctrl", "alpha", "input"):
+                ck.count(key=("layout", cname, lname, what))
+                try:
+                    ev = cls(kern, lay(xc0) if what == "ctrl" else np.ascontiguousarray(xc0), lay(alpha) if what == "alpha" else alpha.copy())
+                    f, d = ev(lay(x0) if what == "input" else np.ascontiguousarray(x0).copy())
+                except Exception as ex:
+                    ck.violation("evaluator-layout:%s:%s:%s:%s" % (cname, what, lname, type(ex).__name__), {"msg": str(ex)[:200]})
+                    continue
+                if np.abs(np.asarray(f) - ref_f).max() > 1e-12 * (1 + np.abs(ref_f).max()) or np.abs(np.asarray(d) - ref_d).max() > 1e-11 * (1 + np.abs(ref_d).max()):
+                    ck.violation("evaluator-layout:%s:%s:%s:result-depends-on-memory-layout" % (cname, what, lname),
+                                 {"err_f": float(np.abs(np.asarray(f) - ref_f).max()), "err_d": float(np.abs(np.asarray(d) - ref_d).max())})
     # antisymmetric evaluator against its Python kernel
     from ciderpress.models.kernel_plans.kernel_tools import get_antisym_rbf_kernel
     ck.count(key=("antisym",))
